@@ -180,7 +180,12 @@ func zzFormula() []zzTok {
 	}
 	implied := false
 	gpos := -1
-	switch zz.Choice(3) {
+	switch zz.Choice(4) {
+	case 3:
+		// a parenthesised pair whose first operand carries a unary sign: (-a op b)
+		gpos = zz.Choice(nops + 1)
+		inner := []zzTok{{kind: 2, op: []string{"-", "!"}[zz.Choice(2)]}, {kind: 0, v: gpos}, {kind: 1, op: names[zz.Choice(len(names))]}, {kind: 0, v: nops + 1}}
+		operands[gpos] = []zzTok{{kind: 3, sub: inner}}
 	case 1:
 		pos := zz.Choice(nops + 1)
 		operands[pos] = append([]zzTok{{kind: 2, op: []string{"-", "!"}[zz.Choice(2)]}}, operands[pos]...)
@@ -241,8 +246,8 @@ func H19Const() {
 	names2 := []string{"+", "*", "%", "<<", "<", "&&", "^", "-"}
 	op2 := names2[zz.Choice(zzConstOps2)]
 	zz.Note(op1 + " " + op2)
-	lits := []string{"0", "0x10", "1.5", "3", "0b101", "100"}[:zzConstLits]
-	vals := []float64{0, 16, 1.5, 3, 5, 100}
+	lits := []string{"0", "0x10", "0.1", "3", "16777217", "100"}[:zzConstLits]
+	vals := []float64{0, 16, 0.1, 3, 16777217, 100}
 	var idx [3]int
 	var isConst [3]bool
 	any := false
